@@ -93,11 +93,16 @@ impl Pattern {
             },
             HirKind::Class(_) => 2,
             HirKind::Look(_) => 0,
+            // Repetition counts go up to u32::MAX each: `(a{4294967295}){4294967295}` must not
+            // overflow (a panic of the derive where overflow checks are on).
             HirKind::Repetition(repetition) => {
-                repetition.min as usize * Self::complexity(&repetition.sub)
+                (repetition.min as usize).saturating_mul(Self::complexity(&repetition.sub))
             }
             HirKind::Capture(capture) => Self::complexity(&capture.sub),
-            HirKind::Concat(hirs) => hirs.iter().map(Self::complexity).sum(),
+            HirKind::Concat(hirs) => hirs
+                .iter()
+                .map(Self::complexity)
+                .fold(0, usize::saturating_add),
             HirKind::Alternation(hirs) => hirs.iter().map(Self::complexity).min().unwrap_or(0),
         }
     }
